@@ -1,5 +1,6 @@
 import USimModel.Drv.Util
 import USimModel.Drv.C17
+import USimModel.Drv.C19
 /-!
 Line-protocol driver: one request per line on stdin, one reply per line on stdout.
 `<suite> <command> <args...>`; every suite keeps its own state.  Used by the Python harness
@@ -9,10 +10,12 @@ open USim.Drv
 
 structure DrvState where
   c17 : C17.St := {}
+  c19 : C19.St := {}
 
 def step (st : DrvState) (line : String) : DrvState × String :=
   match tokens line with
   | "c17" :: rest => let (s, out) := C17.handle st.c17 rest; ({ st with c17 := s }, out)
+  | "c19" :: rest => let (s, out) := C19.handle st.c19 rest; ({ st with c19 := s }, out)
   | "ping" :: _ => (st, "pong")
   | _ => (st, "bad-suite")
 
